@@ -3,7 +3,18 @@
 The arguments are modelled as sets of node labels (line_graph passes set(edge)); `jaccard_similarity` re-wraps them with set(), which is the
 identity on sets.  Real division is the solver's; the quotient is stated, not evaluated.
 """
+import z3
+from ..pyvc import ty as T
+from ..pyvc import theory as TH
 from ..pyvc.engine import Contract
+
+# scommon(a, b) = |a & b| as one specification term (callers such as the line graph compare it with a threshold and carry it as a weight
+# without reasoning about cardinalities); its definition, triggered only where the code itself forms len(a & b)
+_SI = T.Set(T.INT)
+_si = TH.set_ops(T.INT)[1]
+_a, _b = z3.Const("_sca", _SI.sort()), z3.Const("_scb", _SI.sort())
+TH.EXTRA["scommon_def (|a & b| is the number of members of the intersection)"] = z3.ForAll(
+    [_a, _b], TH.scommon(_a, _b) == _SI.card()(_si(_a, _b)), patterns=[_SI.card()(_si(_a, _b))])
 
 FILE = "hypergraphx/measures/edge_similarity.py"
 INTER = "card({x for x in a if x in b})"
@@ -11,7 +22,8 @@ UNION = "(card(a) + card(b) - card({x for x in a if x in b}))"
 
 CONTRACTS = [
     Contract("intersection", FILE, ["intersection"], properties=["C10"], params={"a": "Set[Int]", "b": "Set[Int]"}, result="Int", pure=True,
-             ensures={"result": f"result == {INTER}", "range": "0 <= result and result <= card(a) and result <= card(b)"}),
+             ensures={"result": f"result == {INTER}", "range": "0 <= result and result <= card(a) and result <= card(b)",
+                      "common": lambda eng, p, cx: cx.result.t == TH.scommon(p.env["a"].t, p.env["b"].t)}),
     Contract("jaccard_similarity", FILE, ["jaccard_similarity"], properties=["C10"], params={"a": "Set[Int]", "b": "Set[Int]"}, result="Real", pure=True,
              raises={"ZeroDivisionError": "card(a) == 0 and card(b) == 0"},
              ensures={"result": f"result == real({INTER}) / real({UNION})"}),
